@@ -315,7 +315,7 @@ def gm(rng, d, vals, st, top=False):
     """a matcher expression (JSON) of depth <= d in the domain of every value in vals"""
     shapes = set(v[0] for v in vals)
     plain = all(is_plain(v) for v in vals)
-    lw = 4 if d == 0 else 1
+    lw = 4 if d == 0 else 0.35
     opts = []
 
     def add(w, f):
